@@ -96,7 +96,9 @@ PROPS["C12"] = dict(
     modules=["contracts.sched_sql", "contracts.C12_limits"],
     decided=["a step is moved to RUNNING only if it is safe (including holds) and every required resource is defined and "
              "not over-committed by RUNNING steps (SQL, exact)", "the invariant used <= available is preserved by the "
-             "dispatch transaction", "job_loop starts a job only below the job limit", "hold/release counter contracts"],
+             "dispatch transaction", "job_loop starts a job only below the job limit", "hold/release counter contracts",
+             "a fully recycled step gets the resource requirements of its new declaration on every path of "
+             "Step.after_recycle"],
     undecided=["'at no instant' across real time: commands are OS processes; the model ends at the launch event"],
     assumptions=["SUM of units does not overflow 64 bits", "CHECK constraints of the step table"],
     level="The dispatch query and its resource subquery are proved equivalent to the property's predicates for all rows; "
@@ -120,7 +122,7 @@ PROPS["C15"] = dict(
 )
 
 PROPS["C10"] = dict(
-    modules=["contracts.sched_sql", "contracts.C12_limits", "contracts.C10_dispatch"],
+    modules=["contracts.sched_sql", "contracts.C12_limits", "contracts.C10_dispatch", "contracts.C10_bounded"],
     decided=["the dispatch query is exact over the cached columns (both directions)", "coherence of _ready / _has_hash: "
              "every row event in the read footprint has a trigger flagging the affected steps; only the recomputation "
              "clears the flag; recomputation precedes selection in the same transaction",
